@@ -81,8 +81,13 @@ def run_case(ctx, case):
             for _ in range(rng.randint(1, run.r.num_ops)):
                 o, m = run.choose(rng, "random_ready"); run.dispatch(o, m)
             mk = MakespanReward(run.d); idle = IdleTimeReward(run.d)
-            for _ in range(rng.randint(0, run.r.num_ops - len(run.r.history))):
+            for n_since in range(1, rng.randint(0, run.r.num_ops - len(run.r.history)) + 1):
                 o, m = run.choose(rng, "random_ready"); run.dispatch(o, m)
+                for ob in (mk, idle):
+                    if len(ob.rewards) != n_since or ob.last_reward != ob.rewards[-1]:
+                        ctx.violation("c13_reward_emitted_after_mid_history_attachment",
+                                      {"observer": type(ob).__name__, "rewards": list(ob.rewards),
+                                       "last_reward": ob.last_reward, "dispatches_since": n_since})
             if any(x > 0 for x in mk.rewards + idle.rewards):
                 ctx.violation("c13_positive_reward", {"where": "attached mid-history",
                                                       "rewards": [mk.rewards, idle.rewards]})
